@@ -300,6 +300,24 @@ func (cb *capBuilder) dec(r *syntax.Regexp, x string) (string, error) {
 		if len(parts) == 1 {
 			eqn = fmt.Sprintf("(= %s %s)", x, parts[0])
 		}
+		// a consequence the string solvers do not find on their own: when a part cannot contain the character that the
+		// literal right after it starts with, that character first occurs (in the rest of the string) where the part ends -
+		// so the part is determined by the string (e.g. the name in `name(args)`)
+		for i := 0; i+1 < len(r.Sub); i++ {
+			next := r.Sub[i+1]
+			if next.Op != syntax.OpLiteral || len(next.Rune) == 0 || next.Flags&syntax.FoldCase != 0 {
+				continue
+			}
+			c := next.Rune[0]
+			if c > 127 || !excludesRune(r.Sub[i], c) {
+				continue
+			}
+			rest := parts[i]
+			if i+1 < len(parts) {
+				rest = fmt.Sprintf("(str.++ %s)", strings.Join(parts[i:], " "))
+			}
+			cs = append(cs, fmt.Sprintf("(= (str.indexof %s %s 0) (str.len %s))", rest, strLit(string(c)), parts[i]))
+		}
 		return and(append([]string{eqn}, cs...)...), nil
 	case syntax.OpAlternate:
 		var alts []string
@@ -325,4 +343,37 @@ func (cb *capBuilder) dec(r *syntax.Regexp, x string) (string, error) {
 		return or(and(fmt.Sprintf("(= %s \"\")", x), cb.emptyCaps(r.Sub[0])), c), nil
 	}
 	return "", fmt.Errorf("named capture group under %v is not supported", r.Op)
+}
+
+// excludesRune reports whether no string of L(r) contains the rune c (conservatively: false when unsure).
+func excludesRune(r *syntax.Regexp, c rune) bool {
+	switch r.Op {
+	case syntax.OpEmptyMatch, syntax.OpBeginText, syntax.OpEndText, syntax.OpBeginLine, syntax.OpEndLine, syntax.OpWordBoundary, syntax.OpNoWordBoundary:
+		return true
+	case syntax.OpLiteral:
+		if r.Flags&syntax.FoldCase != 0 {
+			return false
+		}
+		for _, x := range r.Rune {
+			if x == c {
+				return false
+			}
+		}
+		return true
+	case syntax.OpCharClass:
+		for i := 0; i+1 < len(r.Rune); i += 2 {
+			if r.Rune[i] <= c && c <= r.Rune[i+1] {
+				return false
+			}
+		}
+		return true
+	case syntax.OpCapture, syntax.OpStar, syntax.OpPlus, syntax.OpQuest, syntax.OpRepeat, syntax.OpConcat, syntax.OpAlternate:
+		for _, s := range r.Sub {
+			if !excludesRune(s, c) {
+				return false
+			}
+		}
+		return true
+	}
+	return false
 }
